@@ -315,11 +315,16 @@ def gen_location(rng):
     if not d:
         d['country'] = 'US'
     form = 'dict'
+    nocountry = False
     c = rng.random()
     if c < 0.25:
         form = 'json'
     elif c < 0.6 and ('country' in d or set(d) == {'latitude', 'longitude'} or set(d) == {'latitude'}):
         form = 'string'
+    elif c < 0.6 and any(k in d for k in ('state', 'city', 'code')):
+        # the compact form with an EMPTY country: ':NH:Manchester', '::Manchester', ':::03101:42.9:-71.4' (three or more parts)
+        form = 'string'
+        nocountry = True
     if form == 'string' and 'longitude' in d and 'latitude' not in d:
         form = 'dict'                                            # the colon form cannot say "longitude only"
     if form in ('dict', 'json') and rng.random() < 0.15:
@@ -327,6 +332,8 @@ def gen_location(rng):
         for k in ('latitude', 'longitude'):
             if k in d:
                 d[k] = float(d[k])
+    elif form == 'string' and nocountry:
+        rng.random()                                             # keeps the random stream of the older shapes where it was
     return {'form': form, 'value': d}
 
 
@@ -336,15 +343,39 @@ def location_arg(loc):
         return dict(d)
     if loc['form'] == 'json':
         return json.dumps(d)
+    parts = [d.get('country', ''), d.get('state', ''), d.get('city', ''), d.get('code', ''),
+             d.get('latitude', ''), d.get('longitude', '')]
+    if loc['form'] == 'string6':
+        return ':'.join(parts)                                   # all six positions written out, e.g. '::::42.99:-71.46'
     if set(d) == {'latitude', 'longitude'}:
         return f"{d['latitude']}:{d['longitude']}"
     if set(d) == {'latitude'}:
         return d['latitude']
-    parts = [d.get('country', ''), d.get('state', ''), d.get('city', ''), d.get('code', ''),
-             d.get('latitude', ''), d.get('longitude', '')]
     while parts and parts[-1] == '':
         parts.pop()
+    while 'country' not in d and len(parts) < 3:
+        parts.append('')                                         # ':NH' would be 'lat:long'; with no country the named form has >= 3 parts
     return ':'.join(parts)
+
+
+def compact_location_specs(rng):
+    """every non-empty choice of the six positions of the compact 'country:state:city:code:lat:long' string, in the shortest and
+    in the fully written-out spelling, set through update() and through locations.append(): in particular the strings with an
+    EMPTY country and three or more parts"""
+    out = []
+    keys = ('country', 'state', 'city', 'code', 'latitude', 'longitude')
+    for mask in range(1, 64):
+        d = {}
+        for i, k in enumerate(keys):
+            if mask >> i & 1:
+                d[k] = (rng.choice(ALPHA2) if k == 'country' else gen_plain(rng) if k in ('state', 'city') else
+                        (''.join(rng.choice('0123456789ABC -') for _ in range(rng.randrange(1, 8))).strip() or '1') if k == 'code' else
+                        gen_coord(rng, 90 if k == 'latitude' else 180))
+        for form in ('string', 'string6'):
+            for via in ('update', 'setters'):
+                out.append({'type': 'stream', 'via': via, 'tags': [], 'languages': [], 'signed': None, 'source': {}, 'media': {'kind': 'none'},
+                            'locations': [{'form': form, 'value': dict(d)}]})
+    return out
 
 
 def gen_tags(rng):
@@ -2526,8 +2557,8 @@ def main(run):
     run.rule = ('claims: random field assignments per claim type (stream/channel/repost/collection) applied through '
                 'update() or through the accessors: unicode text incl. astral, NUL and length edges 127/128/16383/16384 bytes, '
                 'uint64/uint32/int64 edges, fees in LBC/BTC/USD incl. the uint64 edge and finer-than-unit amounts, 0..N tags / '
-                'languages (language[-script][-region], alpha-2 and UN M.49 regions) / locations (dict, JSON and colon forms, '
-                '+-90/+-180) / claim references, with and without a signature envelope (hash set directly or by id); sequences of 1..4 '
+                'languages (language[-script][-region], alpha-2 and UN M.49 regions) / locations (dict, JSON and colon forms incl. the colon '
+                'form with an empty country and >= 3 parts, and every choice of the six positions short and written out, +-90/+-180) / claim references, with and without a signature envelope (hash set directly or by id); sequences of 1..4 '
                 'further update() calls on one stream claim (fee re-priced in another currency, amount only, address only, clear_fee, title, '
                 'tags, release time), applied to the same object or to the parsed copy and verified after every step; objects with no '
                 'field at all, signed (exactly 85 bytes) and unsigned; every claim type asked for the typed view of every other type (directly, on a '
@@ -2695,6 +2726,11 @@ def main(run):
                 check_url(run, model, base[:pos] + c + base[pos:], 'forbidden-inserted')
     for s in small_scope_urls(q(3, 5)):
         check_url(run, model, s, 'small-scope')
+    # -- compact location strings: every choice of positions (drawn last: the random stream of the older families stays where it was)
+    for sp in compact_location_specs(rng):
+        d = sp['locations'][0]['value']
+        run.count('location-string:' + ('country' if 'country' in d else 'empty-country') + ':' + sp['locations'][0]['form'])
+        run_claim_spec(run, model, sp, 'location-string-family')
     run.exhaustive = True
     run.notes.append({'exhaustive': f'all strings of length <= {q(3, 5)} over [a 1 0 g @ : # $ / \\n] (URL grammar); every first '
                                     'byte 0..255 and every truncation length of a signed envelope'})
